@@ -29,7 +29,7 @@ ASSUMPTIONS = [
 BUDGET = {"quick": 80, "thorough": 800}
 ROUNDS = {"thorough": 8}
 FLOORS = {"posterior_identities": {"quick": 3000, "thorough": 30000}, "off_posterior_recomputations": {"quick": 800, "thorough": 8000}, "api_cases": {"quick": 30, "thorough": 300}, "pairing_checks": {"quick": 3000, "thorough": 30000},
-          "families": 10, "objectives": 6, "driver_iterations": 20, "q_moved_to_posterior_after_use": {"quick": 200, "thorough": 2000}}
+          "families": 10, "objectives": 6, "driver_iterations": 20, "q_moved_to_posterior_after_use": {"quick": 200, "thorough": 2000}, "moved_between_requests": {"quick": 300, "thorough": 3000}}
 
 FAMILIES = ["gamma-exponential", "gamma-poisson", "normal-normal", "beta-binomial", "mvn", "lognormal-exp", "normal-affine",
             "normal-normal-vector", "product-of-unequal-blocks", "lognormal-cumsumexp"]
@@ -111,6 +111,16 @@ def build(case):
         an, bn = a + x.sum(), b + n
         logZ = a * math.log(b) - special.gammaln(a) + special.gammaln(an) - an * math.log(bn) - special.gammaln(x + 1).sum()
         p = [D("prior", "torch.distributions.Gamma", P("z", [1.0]), concentration=a, rate=b), D("lik", "torch.distributions.Poisson", P("data", x.tolist()), rate="z")]
+        if case["seed"] % 2 == 0 and not case.get("big_data"):
+            # counts with exposures t_i: rate_i = t_i z, written as a transformed parameter over the (constant) exposures whose transform holds
+            # the latent - through a view of it, i.e. a derived parameter - as its scale
+            t = gm.loguniform(rng, 0.2, 5.0, n)
+            x = rng.poisson(float(gm.loguniform(rng, 0.3, 3)) * t).astype(float)
+            an, bn = a + x.sum(), b + t.sum()
+            logZ = a * math.log(b) - special.gammaln(a) + special.gammaln(an) - an * math.log(bn) + (x * np.log(t)).sum() - special.gammaln(x + 1).sum()
+            lam = {"id": "lam", "type": "TransformedParameter", "transform": "torch.distributions.AffineTransform", "x": P("t", t.tolist()),
+                   "parameters": {"loc": 0.0, "scale": {"id": "z.view", "type": "ViewParameter", "parameter": "z", "indices": "0:1"}}}
+            p = [D("prior", "torch.distributions.Gamma", P("z", [1.0]), concentration=a, rate=b), D("lik", "torch.distributions.Poisson", P("data", x.tolist()), rate=lam)]
         qa, qb = jitter(an), jitter(bn)
         q = D("q", "torch.distributions.Gamma", "z", concentration=P("q.a", [qa]), rate=P("q.b", [qb]))
         ref = {"logq": lambda z: stats.gamma.logpdf(z, qa, scale=1 / qb).sum(-1), "entropy": stats.gamma.entropy(qa, scale=1 / qb)}
@@ -432,6 +442,12 @@ def run_case(case):
     for draw in range(5):
         rec["p"].clear(), rec["q"].clear()
         rec["draws"] = 0
+        if draw == 2 and case["seed"] % 2 == 0:
+            # the models are moved between two requests (here to the dtype they already have: `.to()` as a set-up script calls it
+            # unconditionally); the next request is as exact as the ones before
+            for mdl in (pm, qm):
+                mdl.to(torch.float64)
+            C["moved_between_requests"] = 1
         dic[b["qparam"]].fire_parameter_changed()  # what the drivers do before asking for the objective
         override = bool(case.get("override_samples")) and draw >= 2 and o not in ("driver",)
         shape = tuple(shape0[:-1]) + (shape0[-1] + 2 + draw,) if override else shape0
